@@ -230,7 +230,15 @@ def run_wire(pid, tier, seed, replay):
                          "MemcTrace", "prog-%s.ndjson" % prof, "pipelined programs %s" % prof, ports(6 + i)))
 
     def one(j):
-        return job_trace(j[0], j[1], j[2], d, j[3], port=j[4])
+        try:
+            return job_trace(j[0], j[1], j[2], d, j[3], port=j[4])
+        except HarnessCrash as ex:
+            if pid != "C10":
+                raise
+            # the process that executes the client input died (abort, kill by the OOM killer, segfault): for C10 that is a
+            # verdict about the input it was working on, not a tool failure
+            return ({"driver": j[0][0], "args": [str(a) for a in j[0]], "spec": j[1], "desc": j[3]},
+                    {"lines": 0, "coverage": [], "violations": [{"tags": ["C10"], "rule": "process.died.rc=%s" % ex.rc, "line": 0}], "trace_file": ""})
     for job, res in parallel(one, jobs, workers=10):
         run.add_result(job, res)
         run.traces += int(res.get("harness", {}).get("universes", 0) or res.get("harness", {}).get("ran", 0) or res.get("harness", {}).get("histories", 0) or 0)
